@@ -370,6 +370,10 @@ func (tbls *TBLS) commitPhase(ctx context.Context, pk []byte) error {
 }
 
 func (tbls *TBLS) combineShares() []byte {
+	// OnMsg may run concurrently (an early or repeated message of a peer): the tables are shared with it
+	tbls.lock.Lock()
+	defer tbls.lock.Unlock()
+
 	for _, party := range tbls.parties {
 		if party == tbls.Party {
 			continue
